@@ -106,6 +106,8 @@ def main():
         "engines": [
             {"name": "tlc", "path": "/opt/veriftools/tla/tla2tools.jar", "serves_properties": sorted(CHECKS),
              "kind_free_text": "explicit-state model checker; checks Model || Monitor and evaluates the same TLA+ monitors over ndjson traces of the real code"},
+            {"name": "apalache", "path": "/opt/veriftools/apalache", "serves_properties": ["C02", "C03", "C18"],
+             "kind_free_text": "symbolic model checker: SeqWindowLemma for the real constants (C02, C03), inductive invariant of the netlink sequence counter (C18 thorough)"},
             {"name": "driver", "path": "/verif/harness/cmd/driver", "serves_properties": sorted(CHECKS),
              "kind_free_text": "Go conformance harness built with -tags verif against /repo's working tree: replays TLC behaviours, records traces"},
         ],
